@@ -831,9 +831,15 @@ func c02R4R5(c *Ctx, r *Report) {
 		}
 		r.Check("C02-R4", "fn=documentUpdateFunc backupAncestorRevs channels=pre-update-snapshot", c.Pos(duf.Pos()), ok, "the old revision's backup carries the channels the document had before this update", "the backup of the superseded revision is stamped with a channel set other than the one it had (e.g. the new revision's channels): a user who only has the new channel could read the old revision's body")
 	}
+	c02RefreshKeysFor(c, r, "C02-R5")
+}
+
+// c02RefreshKeysFor: shared with C13 (a connection that does not watch a newly granted role never learns that the role lost a
+// channel, so no revocation is computed for it).
+func c02RefreshKeysFor(c *Ctx, r *Report, rule string) {
 	ru := c.Func("(*db.blipHandler).refreshUser")
 	if ru == nil {
-		r.Fail("C02-R5", "anchor refreshUser", "-", "function not found")
+		r.Fail(rule, "anchor refreshUser", "-", "function not found")
 		return
 	}
 	reloads := c.Calls(ru, false, nameHasSuffix(".ReloadUser"))
@@ -852,7 +858,7 @@ func c02R4R5(c *Ctx, r *Report) {
 			}
 		}
 	}
-	r.Check("C02-R5", "fn=(*db.blipHandler).refreshUser reload then=RefreshUserKeys", c.Pos(ru.Pos()), ok, "after reloading the user the connection watches the user's current roles", "after reloading its user a replication connection does not refresh the keys it watches: a later change to a newly granted role (e.g. the role losing a channel) never reloads the user and the connection keeps serving documents from the revoked channel")
+	r.Check(rule, "fn=(*db.blipHandler).refreshUser reload then=RefreshUserKeys", c.Pos(ru.Pos()), ok, "after reloading the user the connection watches the user's current roles", "after reloading its user a replication connection does not refresh the keys it watches: a later change to a newly granted role (e.g. the role losing a channel) never reloads the user and the connection keeps serving documents from the revoked channel")
 }
 
 // ---- R6: handlers that read documents without a channel gate are registered with admin privileges only ----
